@@ -17,7 +17,7 @@ use serde_json::json;
 pub static SPEC: PropSpec = PropSpec {
     id: "C11",
     level: "exploration",
-    rule: "trees: all expression trees with <= 3 (quick) / <= 4 (thorough) operator nodes over 12 binary operators, unary - and !, call with 0 and 1 arguments, field access and tuple projection (18 / 558 / 21,510 / 927,954 trees with 1 / 2 / 3 / 4 nodes), each printed spaced and tight with only the parentheses the documented precedence table requires, parsed and lowered by the real front end and compared node by node with the tree; plus random trees up to 9 nodes with tuples, 2-argument calls, literals. programs: generated programs printed with minimal parentheses, with maximal parentheses and with random trivia (spaces, newlines, comments) between tokens must lower to the same ast::File. literals: strings over a hostile alphabet spelled with raw characters / short escapes / \\uXXXX escapes / surrogate pairs, multi-line strings with hostile lines and indentation, integer spellings with leading zeros, float spellings - printed, concatenated and matched by the compiled program (executed Go). non-trivial: every tree / program / literal; distinct by content hash",
+    rule: "trees: all expression trees with <= 3 (quick) / <= 4 (thorough) operator nodes over 12 binary operators, unary - and !, call with 0 and 1 arguments, field access and tuple projection (18 / 558 / 21,510 / 927,954 trees with 1 / 2 / 3 / 4 nodes), each printed spaced and tight with only the parentheses the documented precedence table requires, parsed and lowered by the real front end and compared node by node with the tree; plus random trees up to 9 nodes with tuples, 2-argument calls, literals. types: random type expressions (function types with 0-2 parameters nested in parameters and results, tuples, arrays, Vec / Ref / user generic applications, dyn) printed with the arrow right-associative and parsed back. programs: generated programs printed with minimal parentheses, with maximal parentheses and with random trivia (spaces, newlines, comments) between tokens must lower to the same ast::File. literals: strings over a hostile alphabet spelled with raw characters / short escapes / \\uXXXX escapes / surrogate pairs, multi-line strings with hostile lines and indentation, integer spellings with leading zeros, float spellings - printed, concatenated and matched by the compiled program (executed Go). non-trivial: every tree / program / literal; distinct by content hash",
     eval_counter: "trees",
     assumptions: &["nested tuple projection is printed as (t.0).1 because `t.0.1` lexes as a float (documented lexer behaviour)", "literal fidelity is observed through gomini's execution of the emitted Go"],
     crash_is_violation: false,
@@ -25,7 +25,7 @@ pub static SPEC: PropSpec = PropSpec {
     case_cpu_s: 120,
     shards: 0,
     run,
-    floors: &[("trees", 22_000, 900_000), ("trees_roundtrip_ok", 44_000, 1_800_000), ("programs_same_ast", 100, 2_000), ("string_literals_checked", 300, 6_000), ("multiline_literals_checked", 100, 2_000)],
+    floors: &[("trees", 22_000, 900_000), ("trees_roundtrip_ok", 44_000, 1_800_000), ("programs_same_ast", 100, 2_000), ("string_literals_checked", 300, 6_000), ("multiline_literals_checked", 100, 2_000), ("type_expressions_roundtrip_ok", 1_500, 40_000)],
     finish: None,
 };
 
@@ -438,6 +438,239 @@ fn check_batch(c: &mut Case, trees: &[T], workload: &str) {
     c.count("trees", trees.len() as u64);
 }
 
+// ------------------------------------------------------------------------------------------ type expressions
+
+#[derive(Clone, Debug)]
+enum Ty {
+    Prim(&'static str),
+    Named(&'static str),
+    Tuple(Vec<Ty>),
+    Array(Box<Ty>, usize),
+    App(&'static str, Vec<Ty>),
+    Func(Vec<Ty>, Box<Ty>),
+    Dyn(&'static str),
+}
+
+fn ty_print(t: &Ty, o: &mut String) {
+    match t {
+        Ty::Prim(p) | Ty::Named(p) => o.push_str(p),
+        Ty::Dyn(n) => {
+            o.push_str("dyn ");
+            o.push_str(n);
+        }
+        Ty::Tuple(ts) => {
+            o.push('(');
+            for (i, a) in ts.iter().enumerate() {
+                if i > 0 {
+                    o.push_str(", ");
+                }
+                ty_print(a, o);
+            }
+            o.push(')');
+        }
+        Ty::Array(e, n) => {
+            o.push('[');
+            ty_print(e, o);
+            o.push_str(&format!("; {}]", n));
+        }
+        Ty::App(n, args) => {
+            o.push_str(n);
+            o.push('[');
+            for (i, a) in args.iter().enumerate() {
+                if i > 0 {
+                    o.push_str(", ");
+                }
+                ty_print(a, o);
+            }
+            o.push(']');
+        }
+        // the arrow is right-associative: a function result needs no parentheses, a function parameter sits in
+        // the parameter list's own parentheses
+        Ty::Func(ps, r) => {
+            o.push('(');
+            for (i, a) in ps.iter().enumerate() {
+                if i > 0 {
+                    o.push_str(", ");
+                }
+                ty_print(a, o);
+            }
+            o.push_str(") -> ");
+            ty_print(r, o);
+        }
+    }
+}
+
+fn ty_sexp(t: &Ty, o: &mut String) {
+    match t {
+        Ty::Prim(p) | Ty::Named(p) => o.push_str(p),
+        Ty::Dyn(n) => o.push_str(&format!("(dyn {})", n)),
+        Ty::Tuple(ts) => {
+            o.push_str("(tuple");
+            for a in ts {
+                o.push(' ');
+                ty_sexp(a, o);
+            }
+            o.push(')');
+        }
+        Ty::Array(e, n) => {
+            o.push_str(&format!("(array {} ", n));
+            ty_sexp(e, o);
+            o.push(')');
+        }
+        Ty::App(n, args) => {
+            o.push_str(&format!("(app {}", n));
+            for a in args {
+                o.push(' ');
+                ty_sexp(a, o);
+            }
+            o.push(')');
+        }
+        Ty::Func(ps, r) => {
+            o.push_str("(fn (");
+            for (i, a) in ps.iter().enumerate() {
+                if i > 0 {
+                    o.push(' ');
+                }
+                ty_sexp(a, o);
+            }
+            o.push_str(") ");
+            ty_sexp(r, o);
+            o.push(')');
+        }
+    }
+}
+
+fn ast_ty_sexp(t: &ast::ast::TypeExpr, o: &mut String) {
+    use ast::ast::TypeExpr as T;
+    match t {
+        T::TUnit => o.push_str("unit"),
+        T::TBool => o.push_str("bool"),
+        T::TInt8 => o.push_str("int8"),
+        T::TInt16 => o.push_str("int16"),
+        T::TInt32 => o.push_str("int32"),
+        T::TInt64 => o.push_str("int64"),
+        T::TUint8 => o.push_str("uint8"),
+        T::TUint16 => o.push_str("uint16"),
+        T::TUint32 => o.push_str("uint32"),
+        T::TUint64 => o.push_str("uint64"),
+        T::TFloat32 => o.push_str("float32"),
+        T::TFloat64 => o.push_str("float64"),
+        T::TString => o.push_str("string"),
+        T::TTuple { typs } => {
+            o.push_str("(tuple");
+            for a in typs {
+                o.push(' ');
+                ast_ty_sexp(a, o);
+            }
+            o.push(')');
+        }
+        T::TCon { path } => o.push_str(&path.display()),
+        T::TDyn { trait_path } => o.push_str(&format!("(dyn {})", trait_path.display())),
+        T::TApp { ty, args } => {
+            o.push_str("(app ");
+            ast_ty_sexp(ty, o);
+            for a in args {
+                o.push(' ');
+                ast_ty_sexp(a, o);
+            }
+            o.push(')');
+        }
+        T::TArray { len, elem } => {
+            o.push_str(&format!("(array {} ", len));
+            ast_ty_sexp(elem, o);
+            o.push(')');
+        }
+        T::TFunc { params, ret_ty } => {
+            o.push_str("(fn (");
+            for (i, a) in params.iter().enumerate() {
+                if i > 0 {
+                    o.push(' ');
+                }
+                ast_ty_sexp(a, o);
+            }
+            o.push_str(") ");
+            ast_ty_sexp(ret_ty, o);
+            o.push(')');
+        }
+    }
+}
+
+fn random_ty(rng: &mut Rng, depth: u32) -> Ty {
+    if depth == 0 || rng.chance(1, 4) {
+        return match rng.below(7) {
+            0 => Ty::Prim("int32"),
+            1 => Ty::Prim("bool"),
+            2 => Ty::Prim("string"),
+            3 => Ty::Prim("unit"),
+            4 => Ty::Prim("uint8"),
+            5 => Ty::Named("Pt"),
+            _ => Ty::Dyn("Sh"),
+        };
+    }
+    match rng.below(9) {
+        0 | 1 | 2 | 3 => {
+            let n = rng.below(3);
+            Ty::Func((0..n).map(|_| random_ty(rng, depth - 1)).collect(), Box::new(random_ty(rng, depth - 1)))
+        }
+        4 => Ty::Tuple((0..2 + rng.below(2)).map(|_| random_ty(rng, depth - 1)).collect()),
+        5 => Ty::Array(Box::new(random_ty(rng, depth - 1)), 1 + rng.below(3)),
+        6 => Ty::App("Vec", vec![random_ty(rng, depth - 1)]),
+        7 => Ty::App("Ref", vec![random_ty(rng, depth - 1)]),
+        _ => Ty::App("Bx", vec![random_ty(rng, depth - 1), random_ty(rng, depth - 1)]),
+    }
+}
+
+/// each type is written in three positions (parameter, result, let annotation) of one file
+fn check_types(c: &mut Case, types: &[Ty]) {
+    let mut src = String::from("struct Pt { x: int32 }\nstruct Bx[A, B] { a: A, b: B }\ntrait Sh { fn sh(Self) -> int32; }\n");
+    let texts: Vec<String> = types
+        .iter()
+        .map(|t| {
+            let mut s = String::new();
+            ty_print(t, &mut s);
+            s
+        })
+        .collect();
+    for (i, t) in texts.iter().enumerate() {
+        src.push_str(&format!("fn p{}(x: {}) -> unit {{ () }}\n", i, t));
+    }
+    runner::note_input(&src);
+    let f = match parse_file(&src) {
+        Ok(f) => f,
+        Err(m) => {
+            c.violation(format!("C11:type-expression-rejected:{}", crate::diff::msg_class(&m)), format!("a file of type expressions does not parse: {}", util::truncate(&m, 160)), json!({"source": src}));
+            return;
+        }
+    };
+    let mut k = 0usize;
+    for it in &f.toplevels {
+        if let ast::ast::Item::Fn(func) = it {
+            if let Some((_, pty)) = func.params.first() {
+                if k >= types.len() {
+                    break;
+                }
+                let mut got = String::new();
+                ast_ty_sexp(pty, &mut got);
+                let mut want = String::new();
+                ty_sexp(&types[k], &mut want);
+                if got == want {
+                    c.count("type_expressions_roundtrip_ok", 1);
+                    c.nontrivial(hash_str(&want));
+                } else {
+                    let arrows = texts[k].matches("->").count();
+                    c.violation(
+                        format!("C11:type-misparsed:{}", if arrows >= 2 { "several-arrows" } else { "other" }),
+                        format!("type `{}` is read as {} instead of {}", texts[k], got, want),
+                        json!({"text": texts[k], "expected_tree": want, "parsed_tree": got}),
+                    );
+                }
+                k += 1;
+            }
+        }
+    }
+    c.count("type_expressions", types.len() as u64);
+}
+
 // ------------------------------------------------------------------------------------------ whole programs
 
 /// Debug rendering of the lowered file with the node pointers removed
@@ -784,6 +1017,25 @@ fn run(ctx: &mut Ctx) {
             }
         });
         j += 100;
+    }
+    // A2. type expressions (arrow associativity, nesting of tuples / arrays / applications / function types)
+    let nty = tier.pick(40u64, 1_200u64) / ctx.nshards as u64 + 1;
+    for j in 0..nty {
+        let mut rng = Rng::keyed(seed, "c11-ty", ctx.shard as u64, j);
+        let mut types: Vec<Ty> = (0..40).map(|_| random_ty(&mut rng, 3)).collect();
+        // the curried shapes explicitly
+        types.push(Ty::Func(vec![Ty::Prim("int32")], Box::new(Ty::Func(vec![Ty::Prim("bool")], Box::new(Ty::Prim("string"))))));
+        types.push(Ty::Func(vec![Ty::Func(vec![Ty::Prim("int32")], Box::new(Ty::Prim("bool")))], Box::new(Ty::Prim("string"))));
+        types.push(Ty::Func(vec![], Box::new(Ty::Func(vec![], Box::new(Ty::Func(vec![Ty::Prim("unit")], Box::new(Ty::Prim("int32"))))))));
+        let label = format!("types/{}/{}", ctx.shard, j);
+        ctx.case(&label, |c| {
+            check_types(c, &types);
+            if j == 0 {
+                let mut s = String::new();
+                ty_print(&types[40], &mut s);
+                c.sample(json!({"workload": "type expressions", "text": s}));
+            }
+        });
     }
     // B. whole programs: min parens / max parens / trivia
     let nprog = tier.pick(160u64, 3_200u64) / ctx.nshards as u64 + 1;
